@@ -54,6 +54,14 @@ def run(ctx):
     ctx.report.rules[-1].id = "R02.8(R07.4)"
     from . import c14
     c14.r14_5(ctx, rep, adm, P="C02", rule="R02.9")
+    # a bare SetMaxVersion for a member whose tombstones were not sent moves the frontier past deletes the copy never got (seed D-db-1)
+    from . import c01
+    c01.r01_1(ctx, rep, roles, snd)
+    ctx.report.rules[-1].id = "R02.10(R01.1)"
+    # every member delta of a message is applied, none skipped once another one reset (seed D-db-2)
+    from . import c20
+    c20.r20_2(ctx, rep, roles, app)
+    ctx.report.rules[-1].id = "R02.11(R20.2)"
     from .. import identity
     identity.check(ctx, rep, "C02", "R02.7", ["vv-clone"])
 
